@@ -340,6 +340,10 @@ def gen_redef_session(rng, np_=None):
         if aborting:
             before = sess.emit('* snapshot %d' % f, kind='snapshot', noframe=True)
         sess.emit('* redef %d' % f)
+        if rng.chance(1, 2):
+            # fill mode: enddef fills the NEW variables (fixed ones, and record variables for every existing
+            # record) after the data has been moved - the fill must not touch any old element
+            sess.emit('* set_fill %d 0' % f)
         saved = (copy.deepcopy(schema.dims), list(schema.vars), copy.deepcopy(ms))
         mode = rng.below(4)
         if mode == 0 or rng.chance(1, 3):       # header growth through a long attribute
